@@ -37,6 +37,10 @@ var (
 	fRollbSQL = dbF("EXEC", "^ROLLBACK")
 )
 
+func cancelF(kind, pattern string) fakedb.Fault {
+	return fakedb.Fault{Kinds: []string{kind}, Pattern: pattern, Count: 1, Action: "cancel"}
+}
+
 func regRule(action string) tcstub.Rule {
 	return tcstub.Rule{Kind: "BranchRegister", Count: 1, Action: action}
 }
@@ -54,6 +58,11 @@ func c02AutoFaults() []c02Fault {
 		{name: "commit+rollback1", db: []fakedb.Fault{fCommit, fRollb}},
 		{name: "reg-fail", tc: []tcstub.Rule{regRule("fail")}}, {name: "reg-transport", tc: []tcstub.Rule{regRule("transport")}},
 		{name: "reg-noreply", tc: []tcstub.Rule{regRule("noreply")}}, {name: "reg-conflict", tc: []tcstub.Rule{regRule("lock-conflict")}},
+		{name: "reg-fail-nocode", tc: []tcstub.Rule{regRule("fail-nocode")}},
+		// the caller's context expires between two calls of the bracket: that call is refused, the connection lives on
+		{name: "cancel-q", db: []fakedb.Fault{cancelF("QUERY", "FOR UPDATE")}},
+		{name: "cancel-s", db: []fakedb.Fault{cancelF("EXEC", "^(UPDATE|DELETE|INSERT)")}},
+		{name: "cancel-q2", db: []fakedb.Fault{cancelF("QUERY", `\) IN \(\(`)}},
 		{name: "reg-fail+rollback", db: []fakedb.Fault{fRollb, fRollbSQL}, tc: []tcstub.Rule{regRule("fail")}},
 	}
 	for _, k := range []int{1, 2, 5} {
@@ -68,6 +77,7 @@ func c02CommitFaults() []c02Fault {
 	return []c02Fault{{name: "none"}, {name: "begin", db: []fakedb.Fault{fBegin}}, {name: "uexec", db: []fakedb.Fault{fUExec}},
 		{name: "commit", db: []fakedb.Fault{fCommit}}, {name: "commit+rollback", db: []fakedb.Fault{fCommit, fRollb, fRollbSQL}},
 		{name: "reg-fail", tc: []tcstub.Rule{regRule("fail")}}, {name: "reg-conflict", tc: []tcstub.Rule{regRule("lock-conflict")}},
+		{name: "reg-fail-nocode", tc: []tcstub.Rule{regRule("fail-nocode")}},
 		{name: "report1", tc: []tcstub.Rule{repRule(1)}}, {name: "commit+report4", db: []fakedb.Fault{fCommit}, tc: []tcstub.Rule{repRule(4)}}}
 }
 
@@ -76,7 +86,7 @@ type c02Stmt struct {
 	rows bool
 }
 
-const c02DDL = "CREATE TABLE t_kv (k INT NOT NULL, v INT NOT NULL DEFAULT 0, PRIMARY KEY (k))"
+const c02DDL = "CREATE TABLE t_kv (k INT NOT NULL, Val INT NOT NULL DEFAULT 0, PRIMARY KEY (k))"
 
 func c02Step(j int, s c02Stmt, conn string) (atrun.Step, StmtMeta) {
 	m := StmtMeta{Kind: s.kind, NRows: 0, Conn: conn}
@@ -90,11 +100,11 @@ func c02Step(j int, s c02Stmt, conn string) (atrun.Step, StmtMeta) {
 		if !s.rows {
 			k = int64(900 + j)
 		}
-		st = atrun.Step{Op: "exec", Conn: conn, SQL: "UPDATE t_kv SET v = ? WHERE k = ?", Args: []atrun.Arg{atrun.I(int64(1000 + j)), atrun.I(k)}}
+		st = atrun.Step{Op: "exec", Conn: conn, Cancelable: conn == "", SQL: "UPDATE t_kv SET Val = ? WHERE k = ?", Args: []atrun.Arg{atrun.I(int64(1000 + j)), atrun.I(k)}}
 	case "delete":
-		st = atrun.Step{Op: "exec", Conn: conn, SQL: "DELETE FROM t_kv WHERE k = ?", Args: []atrun.Arg{atrun.I(int64(j + 1))}}
+		st = atrun.Step{Op: "exec", Conn: conn, Cancelable: conn == "", SQL: "DELETE FROM t_kv WHERE k = ?", Args: []atrun.Arg{atrun.I(int64(j + 1))}}
 	default:
-		st = atrun.Step{Op: "exec", Conn: conn, SQL: "INSERT INTO t_kv (k, v) VALUES (?, ?)", Args: []atrun.Arg{atrun.I(int64(100 + j)), atrun.I(int64(1000 + j))}}
+		st = atrun.Step{Op: "exec", Conn: conn, Cancelable: conn == "", SQL: "INSERT INTO t_kv (k, Val) VALUES (?, ?)", Args: []atrun.Arg{atrun.I(int64(100 + j)), atrun.I(int64(1000 + j))}}
 	}
 	m.Args = st.Args
 	return st, m
@@ -103,12 +113,12 @@ func c02Step(j int, s c02Stmt, conn string) (atrun.Step, StmtMeta) {
 func c02Case(idx int, mode string, commit bool, stmts []c02Stmt, f c02Fault, stream string) Case {
 	sc := atrun.Scenario{Name: fmt.Sprintf("c02-%s-%d-%s", mode, idx, f.name), Setup: []string{c02DDL}}
 	for k := 1; k <= 6; k++ {
-		sc.Setup = append(sc.Setup, fmt.Sprintf("INSERT INTO t_kv (k,v) VALUES (%d,%d)", k, 10*k))
+		sc.Setup = append(sc.Setup, fmt.Sprintf("INSERT INTO t_kv (k,Val) VALUES (%d,%d)", k, 10*k))
 	}
-	meta := Meta{Stream: stream, Table: "t_kv", Cols: []ColMeta{{"k", "int", false}, {"v", "int", false}}, PK: []int{0}, OnlyCare: true,
+	meta := Meta{Stream: stream, Table: "t_kv", Cols: []ColMeta{{"k", "int", false}, {"Val", "int", false}}, PK: []int{0}, OnlyCare: true,
 		Extra: map[string]string{"mode": mode, "commit": strconv.FormatBool(commit), "fault": f.name}}
 	steps := []atrun.Step{
-		{Op: "gtx", Steps: []atrun.Step{{Op: "exec", SQL: "UPDATE t_kv SET v = v + 1 WHERE k = 6"}}},
+		{Op: "gtx", Steps: []atrun.Step{{Op: "exec", SQL: "UPDATE t_kv SET Val = Val + 1 WHERE k = 6"}}},
 		{Op: "dump"},
 	}
 	for i := range f.db {
@@ -153,9 +163,9 @@ func c02Case(idx int, mode string, commit bool, stmts []c02Stmt, f c02Fault, str
 	meta.Extra["dump_post"] = strconv.Itoa(len(steps))
 	steps = append(steps, atrun.Step{Op: "dump"})
 	meta.Extra["probe_q"] = strconv.Itoa(len(steps))
-	steps = append(steps, atrun.Step{Op: "query", SQL: "SELECT k, v FROM t_kv ORDER BY k"})
+	steps = append(steps, atrun.Step{Op: "query", SQL: "SELECT k, Val FROM t_kv ORDER BY k"})
 	meta.Extra["probe_x"] = strconv.Itoa(len(steps))
-	steps = append(steps, atrun.Step{Op: "exec", SQL: "UPDATE t_kv SET v = 7777 WHERE k = 5"})
+	steps = append(steps, atrun.Step{Op: "exec", SQL: "UPDATE t_kv SET Val = 7777 WHERE k = 5"})
 	meta.Extra["dump_end"] = strconv.Itoa(len(steps))
 	steps = append(steps, atrun.Step{Op: "dump"})
 	sc.Steps = steps
